@@ -43,7 +43,15 @@ INPUTS = {
     "unresolved-import": ({"main.xsd": OK_XSD}, "main.xsd", False),
     "import-without-namespace": ({"main.xsd": OK_XSD.replace('namespace="urn:other" ', ""), "other.xsd": OTHER_XSD}, "main.xsd", False),
     "unsupported-binding": ({"svc.wsdl": WSDL_ENCODED}, "svc.wsdl", False),
-    "not-utf8-sibling": ({"main.xsd": OK_XSD, "other.xsd": OTHER_XSD, "bin.xsd": b"\xff\xfe\x00\x01"}, "main.xsd", False),
+    # a sibling nobody imports that is not UTF-8 text is skipped by the tool's directory scan (fix 67f8c29); the library is given the rest
+    "not-utf8-sibling": ({"main.xsd": OK_XSD, "other.xsd": OTHER_XSD, "bin.xsd": b"\xff\xfe\x00\x01"}, "main.xsd", True),
+    "not-utf8-imported-file": ({"main.xsd": OK_XSD, "other.xsd": OTHER_XSD.encode("utf-16")}, "main.xsd", False),
+    # XML allows white space around the `=` of an attribute and either kind of quote
+    "ok-attribute-spacing": ({"main.xsd": OK_XSD.replace('schemaLocation="other.xsd"', "schemaLocation = 'other.xsd'").replace('namespace="urn:other"', 'namespace\n   =\t"urn:other"'), "other.xsd": OTHER_XSD}, "main.xsd", True),
+    # the default output path replaces the LAST extension only
+    "ok-two-dots-in-the-name": ({"catalog.v2.xsd": OK_XSD, "other.xsd": OTHER_XSD, "catalog.rs": "// somebody else's file\n"}, "catalog.v2.xsd", True),
+    "ok-no-extension": ({"schema": OK_XSD, "other.xsd": OTHER_XSD}, "schema", True),
+    "ok-upper-case-extension": ({"MAIN.XSD": OK_XSD, "other.xsd": OTHER_XSD}, "MAIN.XSD", True),
 }
 
 
@@ -94,12 +102,9 @@ def run(tier, seed):
     for iname, (files, start, should_succeed) in inputs.items():
         # the library's bytes for the same file contents (only what the CLI registers: start + *.xsd siblings)
         lib_dir = os.path.join(root, "lib", iname)
-        write_files(lib_dir, {k: v for k, v in files.items() if k == start or k.endswith(".xsd")}, follow_links=True)
+        write_files(lib_dir, {k: v for k, v in files.items() if (k == start or k.endswith(".xsd")) and not (isinstance(v, bytes) and k != start)}, follow_links=True)
         rcl, lout, _ = sh([ZV, "gen", lib_dir, start, os.path.join(root, "lib", iname + ".rs")])
         lib_ok = lout.strip().startswith("ok")
-        if any(isinstance(v, bytes) for k, v in files.items() if k.endswith(".xsd") or k == start):
-            # a sibling that cannot be read as UTF-8 fails in the tool's own directory scan, before the library is called
-            lib_ok = False
         lib_bytes = open(os.path.join(root, "lib", iname + ".rs"), "rb").read() if lib_ok else None
         if lib_ok != should_succeed and not iname.startswith("generated"):
             # the scenario table itself is wrong about this input (machinery, not the property)
@@ -142,6 +147,14 @@ def run(tier, seed):
                     if oldtext is not None:
                         open(opath_abs, "w").write(oldtext)
                     before_listing = sorted(os.listdir(proj)) + (sorted(os.listdir(os.path.dirname(opath_abs))) if os.path.isdir(os.path.dirname(opath_abs)) else [])
+                    def snapshot():
+                        snap = {}
+                        for f in os.listdir(proj):
+                            fp = os.path.join(proj, f)
+                            if os.path.isfile(fp) and os.path.abspath(fp) != os.path.abspath(opath_abs):
+                                snap[f] = open(fp, "rb").read()
+                        return snap
+                    before_bytes = snapshot()
                     try:
                         p = subprocess.run([BIN] + args, cwd=cwd, capture_output=True, text=True, timeout=120)
                         code = p.returncode
@@ -164,6 +177,8 @@ def run(tier, seed):
                             extra_files = [f for f in now if f not in before_listing and f != os.path.basename(opath_abs)]
                             if extra_files:
                                 problem = f"the run created {extra_files} next to the requested output"
+                            elif snapshot() != before_bytes:
+                                problem = "the run changed a file other than the requested output"
                     else:
                         if code == 0:
                             problem = "generation fails in the library but the tool exited with status 0"
